@@ -30,6 +30,9 @@ CONSTANTS
     MaxDepth,       \* number of actions per history
     NShards, Shard, \* this TLC process enumerates the configurations of one shard
     Vias,           \* subset of {"matmul","dot"}: which spelling of the operator product is used
+    MaxDB,          \* maximal order of the second operand in scenario "td"
+    OWs,            \* subset of BOOLEAN: overwrite variants enabled
+    QL,             \* maximal length of a mode factorisation in TT2QTT
     EmitAll         \* TRUE: emit every history prefix; FALSE: only complete histories
 
 VARIABLES pool, hist
@@ -85,6 +88,21 @@ InitChain ==
         /\ ShardOf(sa, sb, kp, seed) = Shard
         /\ InitWith(<<FillCores(kp[1], seed, sa), FillCores(kp[2], seed + 1, sb)>>)
 
+\* scenario "pair": two operands of arbitrary, independent shapes
+InitPair ==
+    \E sa \in Shapes, sb \in Shapes, kp \in KindPairs, seed \in Seeds :
+        /\ ShardOf(sa, sb, kp, seed) = Shard
+        /\ InitWith(<<FillCores(kp[1], seed, sa), FillCores(kp[2], seed + 1, sb)>>)
+
+\* scenario "openpair": x with open right boundary, y with matching open left boundary
+InitOpenPair ==
+    \E sa \in Shapes, sb \in Shapes, kp \in KindPairs, seed \in Seeds, r \in RanksS, r0 \in RanksS :
+        LET so == [sa EXCEPT !.rk = [t \in 1..Len(sa.rk) |->
+                       IF t = 1 THEN r0 ELSE IF t = Len(sa.rk) THEN r ELSE sa.rk[t]]]
+            sp == [sb EXCEPT !.rk = [t \in 1..Len(sb.rk) |-> IF t = 1 THEN r ELSE sb.rk[t]]]
+        IN  /\ ShardOf(so, sp, kp, seed) = Shard
+            /\ InitWith(<<FillCores(kp[1], seed, so), FillCores(kp[2], seed + 1, sp)>>)
+
 \* scenario "single": one operand
 InitSingle ==
     \E sa \in Shapes, kp \in KindPairs, seed \in Seeds :
@@ -111,19 +129,25 @@ TDShapeB(sa, k, mode, ext) ==
                           ELSE [rd |-> ext.rd \o crd, cd |-> ext.cd \o ccd]
 
 TDModes == {"last-first", "last-last", "first-last", "first-first"}
+ShardA(sa) == ISum(sa.rd) * 3 + ISum(sa.cd) * 5 + ISum(sa.rk) * 7 + sa.rd[1] + Len(sa.rd) * 2
+ModeIx(mode) == CASE mode = "last-first" -> 0 [] mode = "last-last" -> 1 [] mode = "first-last" -> 2 [] OTHER -> 3
 InitTD ==
-    \E sa \in Shapes, kp \in KindPairs, seed \in Seeds, mode \in TDModes :
-      \E k \in 1..Len(sa.rd), e \in 0..(MaxD - 1) :
+    \E t \in {u \in Shapes \X TDModes \X (1..MaxD) :
+                 u[3] <= Len(u[1].rd) /\ (ShardA(u[1]) + ModeIx(u[2]) * 5 + u[3] * 3) % NShards = Shard} :
+      LET sa == t[1]
+          mode == t[2]
+          k == t[3]
+      IN
+      \E kp \in KindPairs, seed \in Seeds, e \in 0..(MaxDB - 1) :
         \E ext \in (IF e = 0 THEN {[rd |-> <<>>, cd |-> <<>>]}
                     ELSE {[rd |-> s.rd, cd |-> s.cd] : s \in ShapesD(e, DimsR, DimsC, {1})}) :
           LET dims == TDShapeB(sa, k, mode, ext)
               q == Len(dims.rd)
-          IN  \E ri \in [1..(q - 1) -> RanksS] :
-                LET sb == [rd |-> dims.rd, cd |-> dims.cd,
-                           rk |-> [t \in 1..(q + 1) |-> IF t = 1 \/ t = q + 1 THEN 1 ELSE ri[t - 1]]]
-                IN  /\ q <= MaxD
-                    /\ ShardOf(sa, sb, kp, seed) = Shard
-                    /\ InitWith(<<FillCores(kp[1], seed, sa), FillCores(kp[2], seed + 1, sb)>>)
+          IN  /\ q <= MaxDB
+              /\ \E ri \in [1..(q - 1) -> RanksS] :
+                    LET sb == [rd |-> dims.rd, cd |-> dims.cd,
+                               rk |-> [t2 \in 1..(q + 1) |-> IF t2 = 1 \/ t2 = q + 1 THEN 1 ELSE ri[t2 - 1]]]
+                    IN  InitWith(<<FillCores(kp[1], seed, sa), FillCores(kp[2], seed + 1, sb)>>)
 
 \* scenario "open": one operand with boundary ranks in RanksS (for rank_tensordot / concatenate)
 InitOpen ==
@@ -140,6 +164,8 @@ Init ==
     \/ "same" \in Scenarios /\ InitSame
     \/ "chain" \in Scenarios /\ InitChain
     \/ "single" \in Scenarios /\ InitSingle
+    \/ "pair" \in Scenarios /\ InitPair
+    \/ "openpair" \in Scenarios /\ InitOpenPair
     \/ "lin" \in Scenarios /\ InitLin
     \/ "td" \in Scenarios /\ InitTD
     \/ "open" \in Scenarios /\ InitOpen
@@ -311,7 +337,7 @@ DConcatG(x, y) ==
 Concatenate(a, b, form, ow) ==
     /\ "Concatenate" \in Ops
     /\ pool[a].d.rN = pool[b].d.r0
-    /\ Order(pool[a]) + Order(pool[b]) <= MaxD + 1
+    /\ Order(pool[a]) + Order(pool[b]) <= 2 * MaxD
     /\ LET r == Obj(DConcatG(pool[a].d, pool[b].d), pool[a].rk \o Tail(pool[b].rk))
            ev == [op |-> "Concatenate", a |-> a, b |-> b, form |-> form, ow |-> ow]
        IN  IF ow THEN a # b /\ Step(ev, <<>>, <<<<a, r>>>>) ELSE Step(ev, <<r>>, <<>>)
@@ -335,6 +361,44 @@ Squeeze(a) ==
     /\ LET dn == DSqueeze(pool[a].d)
        IN  Step([op |-> "Squeeze", a |-> a],
                 <<Obj(dn, [t \in 1..(Len(dn.rd) + 1) |-> IF t = 1 \/ t = Len(dn.rd) + 1 THEN 1 ELSE 0])>>, <<>>)
+
+
+\* TT <-> QTT: split every mode i into the factors rds[i] / cds[i] (C order), merge back
+Facts(n, L) == {f \in [1..L -> 1..n] : Prod(f) = n}
+ModeFacts(m, n) == UNION {Facts(m, l) \X Facts(n, l) : l \in 1..QL}
+TT2QTT(a, rds, cds) ==
+    /\ "TT2QTT" \in Ops /\ Closed(pool[a])
+    /\ LET dn == DSplit(pool[a].d, rds, cds)
+       IN  Step([op |-> "TT2QTT", a |-> a, rds |-> rds, cds |-> cds],
+                <<Obj(dn, [t \in 1..(Len(dn.rd) + 1) |-> IF t = 1 \/ t = Len(dn.rd) + 1 THEN 1 ELSE 0])>>, <<>>)
+
+\* all compositions of n into positive parts
+RECURSIVE Compositions(_)
+Compositions(n) == IF n = 0 THEN {<<>>} ELSE UNION {{<<k>> \o c : c \in Compositions(n - k)} : k \in 1..n}
+QTT2TT(a, nums) ==
+    /\ "QTT2TT" \in Ops /\ Closed(pool[a])
+    /\ ISum(nums) = Order(pool[a])
+    /\ LET dn == DMerge(pool[a].d, nums)
+       IN  Step([op |-> "QTT2TT", a |-> a, nums |-> nums],
+                <<Obj(dn, [t \in 1..(Len(dn.rd) + 1) |-> IF t = 1 \/ t = Len(dn.rd) + 1 THEN 1 ELSE 0])>>, <<>>)
+
+\* block-core assembly from an r1 x r2 list of m x n matrices (or the placeholder 0)
+\* present: set of <<p, q>> positions holding a matrix; cplx: blocks are complex
+BlockFill(seed, p, q, m, n, cplx) ==
+    [i \in 1..m |-> [j \in 1..n |->
+        <<Hash(seed, p, q, i, j, 1) - 3, IF cplx THEN (Hash(seed + 1, q, p, j, i, 2) % 5) - 2 ELSE 0>>]]
+BuildCore(r1, r2, m, n, present, cplx, flag, form) ==
+    /\ "BuildCore" \in Ops
+    /\ present # {}
+    /\ (cplx => flag)                \* complex blocks need iscomplex=True
+    /\ (form = "vector" => r2 = 1)   \* input form (2): a flat list of r1 blocks
+    /\ LET blk(p, q) == BlockFill(Len(hist) + 1, p, q, m, n, cplx)
+           dn == MkG(<<m>>, <<n>>, r1, r2, LAMBDA p, I, J, q :
+                        IF <<p + 1, q + 1>> \in present THEN blk(p + 1, q + 1)[I[1] + 1][J[1] + 1] ELSE CZ)
+           lst == [p \in 1..r1 |-> [q \in 1..r2 |->
+                      IF <<p, q>> \in present THEN [z |-> FALSE, m |-> blk(p, q)] ELSE [z |-> TRUE, m |-> <<>>]]]
+       IN  Step([op |-> "BuildCore", list |-> lst, iscomplex |-> flag, form |-> form],
+                <<Obj(dn, <<r1, r2>>)>>, <<>>)
 
 \* ------------------------------------------------------------------- gauge
 RECURSIVE RkLeft(_, _, _, _)
@@ -386,31 +450,39 @@ Next ==
     /\ CanStep
     /\ \/ \E a \in Ids : \/ Full(a) \/ Matricize(a) \/ Elements(a) \/ IsOperator(a)
                          \/ Norm2(a) \/ Norm1(a) \/ Copy(a)
-                         \/ \E ow \in BOOL2 : Conj(a, ow) \/ RankTranspose(a, ow)
-                         \/ \E S \in (SUBSET (1..Order(pool[a]))) \ {{}}, cj \in BOOL2, ow \in BOOL2 :
+                         \/ \E ow \in OWs : Conj(a, ow) \/ RankTranspose(a, ow)
+                         \/ \E S \in (SUBSET (1..Order(pool[a]))) \ {{}}, cj \in BOOL2, ow \in OWs :
                                 Transpose(a, S, cj, ow)
                          \/ \E s \in Scalars, side \in {"left", "right"}, how \in {"int", "float", "complex"} :
                                 SMul(a, s, side, how)
                          \/ \E S \in SUBSET (1..Order(pool[a])) : Diag(a, S)
                          \/ Squeeze(a)
-                         \/ \E n \in 1..2, mode \in {"first", "last"}, ow \in BOOL2 :
+                         \/ \E n \in 1..2, mode \in {"first", "last"}, ow \in OWs :
                                 RankTensordot(a, n, mode, Len(hist), ow)
                          \/ \E s \in 0..(MaxD - 2), e \in 0..(MaxD - 2) :
                                 OrthoLeft(a, s, e, FALSE) \/ OrthoLeft(a, s, e, TRUE)
                          \/ \E s \in 1..(MaxD - 1), e \in 1..(MaxD - 1) :
                                 OrthoRight(a, s, e, FALSE) \/ OrthoRight(a, s, e, TRUE)
                          \/ Ortho(a)
+                         \/ \E f \in {g \in [1..Order(pool[a]) ->
+                                            UNION {ModeFacts(pool[a].d.rd[k], pool[a].d.cd[k]) : k \in 1..Order(pool[a])}] :
+                                        \A k \in 1..Order(pool[a]) : g[k] \in ModeFacts(pool[a].d.rd[k], pool[a].d.cd[k])} :
+                                TT2QTT(a, [k \in 1..Order(pool[a]) |-> f[k][1]], [k \in 1..Order(pool[a]) |-> f[k][2]])
+                         \/ \E nums \in Compositions(Order(pool[a])) : QTT2TT(a, nums)
        \/ \E a \in Ids, b \in Ids :
              \/ Add(a, b) \/ Sub(a, b)
              \/ \E via \in Vias : MatMul(a, b, via)
-             \/ \E k \in 1..MaxD, mode \in TDModes, ow \in BOOL2 : Tensordot(a, b, k, mode, ow)
-             \/ \E form \in {"tt", "list"}, ow \in BOOL2 : Concatenate(a, b, form, ow)
+             \/ \E k \in 1..Max(MaxD, MaxDB), mode \in TDModes, ow \in OWs : Tensordot(a, b, k, mode, ow)
+             \/ \E form \in {"tt", "list"}, ow \in OWs : Concatenate(a, b, form, ow)
        \/ \E a \in Ids, x \in Ids, b \in Ids : Residual(a, x, b)
        \/ \E rd \in CtorDims, cd \in CtorDims, r \in RanksS : Zeros(rd, cd, r) \/ Ones(rd, cd, r)
        \/ \E dims \in CtorDims : Eye(dims)
        \/ \E dims \in CtorDims : \E inds \in {f \in [1..Len(dims) -> 0..2] : \A k \in 1..Len(dims) : f[k] < dims[k]} :
              Unit(dims, inds)
        \/ \E dims \in CtorDims, r \in RanksS, nrm \in {1, 3} : Uniform(dims, r, nrm)
+       \/ \E r1 \in RanksS, r2 \in RanksS, m \in DimsR, n \in DimsC, cplx \in BOOL2, flag \in BOOL2,
+             form \in {"matrix", "vector"} :
+             \E present \in SUBSET ((1..r1) \X (1..r2)) : BuildCore(r1, r2, m, n, present, cplx, flag, form)
 
 Spec == Init /\ [][Next]_vars
 
